@@ -490,6 +490,7 @@ def lister_spec(prev, specs, ns, name):
 def mon_c02(h, o, nwf, keys):
     """sticky_bind / sticky_ranges / dp_takes_reserve on the implementation's dumps (python predicates, printed as literals)"""
     out = []
+    dps = {}
     specs = spec_index(h)
     steps = (o.get("steps") or [])[:nwf]
     prev = None
@@ -515,9 +516,20 @@ def mon_c02(h, o, nwf, keys):
                         if held and ok:
                             ok = ips[i] in held
                     out.append((lit(ok), si, "sticky_ranges", []))
+        if k == "dp_set":
+            dps[(op["ns"], op["name"])] = op.get("replicas")
         if prev is not None and k == "filter" and st.get("res") == "ok":
             sp = next((s for (ns, name, uid), s in specs.items() if ns == op["ns"] and name == op["name"] and
                        any(p[0] == ns and p[1] == name and p[2] == uid for p in prev["pods"])), None)
+            if sp is not None and sp["Kind"] == "dp" and eff_policy(sp) != 0 and not sp.get("Ranges") and \
+                    not any(o2.get("op") == "pool_set" for o2 in h["ops"]) and not any(e[1] == pod_key(sp) for e in prev["alloc"]):
+                # filter approves nodes for a new pod of an immutable / never deployment only while the app's pods hold fewer IPs
+                # than it has replicas - otherwise the replacement waits for the IP of the pod it replaces (used >= replicas)
+                pk_ = prefix_key(sp)
+                app_pk = ("pool__%s_dp_%s_%s_" % (sp["Pool"], sp["Ns"], sp["App"])) if sp.get("Pool") else pk_
+                used = len([e for e in prev["alloc"] if e[1].startswith(app_pk) and e[1] != pk_])
+                r = dps.get((sp["Ns"], sp["App"]))
+                out.append((lit(r is not None and used < r), si, "dp_waits_for_its_ip", []))
             if sp is not None and sp["Kind"] == "dp" and eff_policy(sp) != 0 and not sp.get("Ranges"):
                 key, pk = pod_key(sp), prefix_key(sp)
                 if not any(e[1] == key for e in prev["alloc"]) and any(e[1] == pk for e in prev["alloc"]):
@@ -558,15 +570,22 @@ def sticky_scenarios(rng, ctx, n):
                 if how == "evict":
                     ops += [phase(old, 3), inf(old)]
                 ops += [dele(old), inf(old)]
-                if rng.random() < 0.8:
+                late = False
+                r = rng.random()
+                if r < 0.55:
                     ops.append({"op": "event", "n": 0})
                     if how == "evict":
                         ops.append({"op": "event", "n": 0})
+                elif r < 0.8:
+                    late = True            # the replacement is scheduled before the old pod's event is handled
                 else:
                     ops.append({"op": "drop_event", "n": 0})
                     ops.append({"op": "resync", "ip": "@a%d" % rng.randrange(3)})
             p = newpod(j)
-            ops += [put(p), inf(p), flt(p), bnd(p, "@approved:%d" % rng.randrange(3)), inf(p), phase(p, 1), inf(p)]
+            ops += [put(p), inf(p), flt(p), bnd(p, "@approved:%d" % rng.randrange(3))]
+            if old is not None and not surge and late:
+                ops += [{"op": "event", "n": 0}, {"op": "event", "n": 0}, flt(p), bnd(p, "@approved:%d" % rng.randrange(3))]
+            ops += [inf(p), phase(p, 1), inf(p)]
             if old is not None and surge:
                 ops += [dele(old), inf(old), {"op": "event", "n": 0}]
             live[j] = p
@@ -758,7 +777,11 @@ def routing_scenarios(rng, ctx, n):
             policy = rng.choice([0, 0, 1, 2]) if kind != "bare" else rng.choice([0, 2])
             p = mkpod(name, "c%d_%d" % (i, j), kind, "web" if kind == "sts" else "api", policy, ranges)
             nodes = rng.sample(sorted(NODES), rng.choice([2, 3, 4])) + (["ghost"] if rng.random() < 0.1 else [])
-            ops += [put(p), inf(p), flt(p, nodes), bnd(p, "@approved:%d" % rng.randrange(4))]
+            ops += [put(p), inf(p), flt(p, nodes)]
+            if rng.random() < 0.35:
+                # a store call of the first attempt fails cleanly; the scheduler filters and binds again, this time without a fault
+                ops += [dict(bnd(p, "@approved:%d" % rng.randrange(4)), fstore=rng.choice([0, 1, 1, 2])), flt(p, nodes)]
+            ops += [bnd(p, "@approved:%d" % rng.randrange(4))]
             if rng.random() < 0.4 and policy != 0:
                 # second incarnation with partially different ranges: pre-owned slots
                 ops += [inf(p), dele(p), inf(p), {"op": "event", "n": 0}]
